@@ -85,20 +85,24 @@ def wrap(values, is_struct):
 
 
 def make_spec(kind, text, variables, semantics=None, io=None, consts=(), unit=None, sampling=None,
-              sub_specs=(), declare_out=True, extra_decl=(), struct=()):
+              sub_specs=(), declare_out=True, extra_decl=(), struct=(), single=False):
     """kind: 'offd' | 'ond' | 'bothd' | 'offc' | 'onc'.  `struct`: variables declared with the user-defined type `Msg` (the text
     has to read them as `x.value`, see `struct_text`)."""
     sem = semantics if semantics is not None else rtamt.Semantics.STANDARD
+    # the offline-only / online-only classes, or (for one text in three, chosen by the text so that a replay makes the same
+    # choice) the class that owns both interpreters
+    import zlib
+    both = semantics is not None or (not single and zlib.crc32(text.encode("utf-8")) % 3 == 0)     # `single`: explain() exists on the offline-only class
     if kind == "offd":
-        spec = rtamt.StlDiscreteTimeOfflineSpecification() if semantics is None else rtamt.StlDiscreteTimeSpecification(semantics=sem)
+        spec = rtamt.StlDiscreteTimeSpecification(semantics=sem) if both else rtamt.StlDiscreteTimeOfflineSpecification()
     elif kind == "ond":
-        spec = rtamt.StlDiscreteTimeOnlineSpecification() if semantics is None else rtamt.StlDiscreteTimeSpecification(semantics=sem)
+        spec = rtamt.StlDiscreteTimeSpecification(semantics=sem) if both else rtamt.StlDiscreteTimeOnlineSpecification()
     elif kind == "bothd":
         spec = rtamt.StlDiscreteTimeSpecification(semantics=sem)
     elif kind == "offc":
-        spec = rtamt.StlDenseTimeOfflineSpecification() if semantics is None else rtamt.StlDenseTimeSpecification(semantics=sem)
+        spec = rtamt.StlDenseTimeSpecification(semantics=sem) if both else rtamt.StlDenseTimeOfflineSpecification()
     elif kind == "onc":
-        spec = rtamt.StlDenseTimeOnlineSpecification() if semantics is None else rtamt.StlDenseTimeSpecification(semantics=sem)
+        spec = rtamt.StlDenseTimeSpecification(semantics=sem) if both else rtamt.StlDenseTimeOnlineSpecification()
     else:
         raise HarnessError("unknown monitor kind " + kind)
     if struct:
